@@ -184,6 +184,10 @@ def mk(op, ty, *args):
         (a,) = args
         if a.op == 'fc' and isinstance(a.args[0], Fraction) and a.args[0] != 0:
             return fc(ty, -a.args[0])
+    elif op == 'fptrunc':
+        (a,) = args
+        if a.op == 'fpext' and a.args[0].ty == ty:
+            return a.args[0]          # widening then narrowing back is the identity
     elif op in ('fpext', 'sitofp', 'uitofp'):
         (a,) = args
         if op == 'fpext' and a.op == 'fc':
